@@ -102,7 +102,7 @@ func genEpoch(r *vh.Rng, th bool) []Case {
 		grace uint64
 		ml    int
 	}
-	small := []g{{30, 1, 3}, {29, 1, 2}, {30, 2, 2}, {30, 3, 2}, {29, 0, 2}}
+	small := []g{{30, 1, 2}, {29, 1, 2}, {30, 2, 2}, {30, 3, 1}, {29, 0, 1}}
 	if th {
 		small = []g{{30, 1, 5}, {29, 1, 4}, {28, 1, 3}, {30, 2, 4}, {30, 3, 4}, {29, 0, 3}, {29, 2, 3}}
 	}
@@ -116,16 +116,27 @@ func genEpoch(r *vh.Rng, th bool) []Case {
 			})
 		}
 	}
+	if !th {
+		base := randBase(r, 32, 30)
+		sampleSeqs(r, alpha, 3, 150, func(ops []Op) {
+			out = append(out, Case{Kind: "epoch", Bits: 32, Base: base.String(), PPL: 30, PL: 32, Grace: 1,
+				Ops: append(ops, epochSuffix(2)...), Origin: "small-random"})
+		})
+		sampleSeqs(r, alpha, 5, 100, func(ops []Op) {
+			out = append(out, Case{Kind: "epoch", Bits: 32, Base: base.String(), PPL: 30, PL: 32, Grace: 1,
+				Ops: append(ops, epochSuffix(2)...), Origin: "small-random"})
+		})
+	}
 	// guarded stream: grace 1, at most one advance between touches (no slot's age reaches 4 needs
 	// every usable slot written: small pools, fill first)
-	ng := 40
+	ng := 30
 	if th {
 		ng = 800
 	}
 	for i := 0; i < ng; i++ {
 		out = append(out, genEpochGuarded(r.Fork()))
 	}
-	nl := 60
+	nl := 40
 	if th {
 		nl = 1500
 	}
